@@ -732,6 +732,20 @@ pub fn my_last_seq(label: &'static str) -> u64 {
     with_me(|sh, id| sh.lock().label_seq.get(&(id, label)).copied().unwrap_or(0)).unwrap_or(0)
 }
 
+/// Latest event sequence number at which any task of `role` passed `label` (0 = never).
+pub fn last_seq_of_role(role: &str, label: &'static str) -> u64 {
+    with_me(|sh, _| {
+        let st = sh.lock();
+        st.label_seq
+            .iter()
+            .filter(|((t, l), _)| *l == label && st.tasks[*t].role == role)
+            .map(|(_, s)| *s)
+            .max()
+            .unwrap_or(0)
+    })
+    .unwrap_or(0)
+}
+
 pub fn is_task() -> bool {
     ME.with(|m| m.borrow().is_some())
 }
